@@ -150,6 +150,8 @@ impl Generator {
         // from here on the ninja file is being rewritten. the previous cache describes the
         // previous ninja file, so it must not survive a run that fails or dies half way.
         GenerateResult::remove_cache(&self.build_dir, &self.mode)?;
+        #[cfg(kaspar030_laze_verif)]
+        crate::verif::fault("after_cache_remove");
 
         let mut ninja_build_file = std::io::BufWriter::new(std::fs::File::create(
             get_ninja_build_file(&self.build_dir, &self.mode).as_path(),
@@ -307,6 +309,8 @@ impl Generator {
         // write errors are reported) before the cache is.
         ninja_build_file.flush()?;
         drop(ninja_build_file);
+        #[cfg(kaspar030_laze_verif)]
+        crate::verif::fault("after_flush");
 
         let num_built = builds.len();
         println!(
